@@ -22,6 +22,8 @@ def main(argv=None):
     try:
         mod = importlib.import_module('ufwsa.rules.' + pid.lower())
         mod.run(ck)
+        from .rules import hidden
+        hidden.run(ck, pid)
     except front.FrontError as e:
         ck.broken(pid + '.front', 'front-end', '', str(e))
     except Exception as e:
